@@ -13,7 +13,7 @@ From SV Require Import Gen.PixelCodecs_gen Gen.VtfLayout_gen Fmt.VtfGenProofs.
 From SV Require Import Fmt.VtfFrameSM Fmt.VtfFrameSMProofs Gen.VtfFrameSM_gen.
 From SV Require Import Bin.Struct Fmt.VtfContainer Fmt.VtfContainerProofs Gen.VtfContainer_gen.
 From SV Require Import Fmt.VtfSides Fmt.VtfSidesProofs.
-From SV Require Import Fmt.VtfWholeFile Fmt.VtfWholeFileProofs.
+From SV Require Import Fmt.VtfWholeFile Fmt.VtfWholeFileProofs Fmt.VtfSheetProofs.
 Import ListNotations.
 
 (** ** Pixels *)
@@ -387,3 +387,36 @@ Theorem c15_whole_file_masked_flags_refuted :
        (option_map (decode_file std_fmts masked_flagcfg 2) (encode_file std_fmts masked_flagcfg (ex_file 4)))
      = Some [([67; 82; 67]%N, 66%Z, RInline 305419896); ([75; 86; 68]%N, 2%Z, RInline 120)].
 Proof. exact whole_file_masked_flags_refuted. Qed.
+
+(** ** Round 3: particle sheets, and where save() records its offsets *)
+(** The particle-sheet resource (was: record-level theorems + correspondence).  [make_sheet] is SheetSequence.make_data,
+    [read_sheet] SheetSequence.from_resource, over the four record formats regenerated from the source ([sfmts_wf]:
+    instance obligation).  For sheet version 0 or 1, at most 64 sequences with distinct numbers 0..63, every value fitting
+    its field ([sheet_fits]: four coordinates per frame for version 1, at least one for version 0, floats as 32-bit
+    patterns): reading what was written gives the sequences back - numbers, clamp flags, total times, frame durations
+    and texture coordinates, in order; version 0 stores the first coordinate only and the reader repeats it four times. *)
+Theorem c15_sheet_roundtrip : forall S, wf_fmt (s_head S) = true -> wf_fmt (s_seq S) = true -> wf_fmt (s_dur S) = true -> wf_fmt (s_tex S) = true ->
+  forall ver qs bs, sheet_fits S ver qs = true -> make_sheet S ver qs = Some bs ->
+  read_sheet S bs = Some (ver, map (canon_seq ver) qs).
+Proof. exact sheet_roundtrip. Qed.
+(** ... and inside the whole file: the bytes [decode_file] hands to the sheet reader parse to the sequences *)
+Theorem c15_whole_file_sheet_73 : forall F G S v low_size file ver qs sb,
+  fmts_wf F = true -> flags_ok G = true -> (3 <= v_minor v)%Z -> vfile_fits F G v = true ->
+  sfmts_wf S = true -> sheet_fits S ver qs = true -> make_sheet S ver qs = Some sb -> v_sheet v = Some sb ->
+  encode_file F G v = Some file ->
+  exists hdr res lo hi, decode_file F G low_size file = Some (v_minor v, hdr, v_depth v, res, Some sb, lo, hi)
+                        /\ read_sheet S sb = Some (ver, map (canon_seq ver) qs).
+Proof. exact whole_file_sheet_73. Qed.
+Example c15_sheet_inhabited :
+  sfmts_wf std_sfmts = true /\ sheet_fits std_sfmts 1 ex_sheet = true /\ sheet_fits std_sfmts 0 ex_sheet = true
+  /\ option_map (read_sheet std_sfmts) (make_sheet std_sfmts 1 ex_sheet) = Some (Some (1%Z, ex_sheet))
+  /\ option_map (read_sheet std_sfmts) (make_sheet std_sfmts 0 ex_sheet) = Some (Some (0%Z, map (canon_seq 0) ex_sheet))
+  /\ map (canon_seq 0) ex_sheet <> ex_sheet.
+Proof. exact sheet_inhabited. Qed.
+(** The order of the file-writing events of save() (regenerated as [gen_save_events]; [save_events_ok] is an instance
+    obligation): today's order passes; recording the thumbnail offset after the thumbnail was written, or a data-block
+    offset after its length, does not. *)
+Example c15_save_events_inhabited : save_events_ok good_save_events = true.
+Proof. exact save_events_inhabited. Qed.
+Theorem c15_late_offsets_refuted : low_high_ok late_low_events = false /\ set_then_block res_key late_block_events = false.
+Proof. exact late_offsets_refuted. Qed.
